@@ -262,7 +262,7 @@ for _p in ("C05", "C15", "C16"):
     HANDLERS[_p] = check_mac
 
 
-# ----------------------------------------------------------------------------- C18: harness/rustc
+# ----------------------------------------------------------------------------- C18: rustc probes
 
 def run_probes():
     import rustc_probes as rp
